@@ -552,12 +552,16 @@ def call_heap_method(spec, fn, case):
     try:
         with common.time_limit(5):
             r = fn(obj, *pos, **kw)
+            if spec.get('kind') == 'generator' and spec.get('key_locals') is not None:
+                r = list(r)     # round 3e: a generator is the list of what it yields, or the exception that ends it
         res = ('ok', r)
     except common.CaseTimeout:
         res = ('exc', 'CaseTimeout')
     except Exception as e:  # noqa: BLE001
         res = ('exc', type(e).__name__)
     rt = py2lean.parse_type(spec['result'])
+    if spec.get('kind') == 'generator' and spec.get('key_locals') is not None:
+        rt = ('List', rt)
     if res[0] == 'ok' and rt == ('Val',):
         snap, (rs,) = heap_snapshot(cls, obj, sentinel, [res[1]])
         return heap_canon(cls, snap, ('ok', rs))
